@@ -11,7 +11,7 @@ EXPLANATION = ("R-ORDER EventSender::subscribe pushes the event (with the suspen
                "caller, Finished only behind cnt==0, continue_bottom takes the coroutine out of the event (at most one run); macro "
                "expansion witnesses (analysed MIR of the expansions): top half, then send, then bottom half; select! returns the "
                "token of the polled event")
-EXPLANATION_2 = ('EventSender.id is the selectors slot index (read from `total`, one push and one increment per add, Done carries the own id); every popped event is dispatched before the next pop/park/return; the poller taken out of to_wake is unparked')
+EXPLANATION_2 = ('EventSender.id is the selectors slot index (read from `total`, one push and one increment per add, Done carries the own id); every popped event is dispatched before the next pop/park/return; the poller taken out of to_wake is unparked; yield_back raises the Cancel panic exactly when the event was not sent (F30); Cqueue is !Sync (F33, compile-fail witness)')
 NOT_DECIDED = "exactly-once under simultaneous arms; the Finished-vs-queued-Done window (see findings); liveness"
 CONFIGS_QUICK = ["default"]
 NEEDS_TARGET = True
